@@ -591,7 +591,9 @@ func New(config ...Config) *App {
 		app.config.RequestMethods = DefaultMethods
 	}
 
+	// both lookup tables are derived from Proxies alone: a Config taken from another app carries that app's tables
 	app.config.TrustProxyConfig.ips = make(map[string]struct{}, len(app.config.TrustProxyConfig.Proxies))
+	app.config.TrustProxyConfig.ranges = nil
 	for _, ipAddress := range app.config.TrustProxyConfig.Proxies {
 		app.handleTrustedProxy(ipAddress)
 	}
